@@ -263,6 +263,25 @@ type bset struct {
 	basis     types.ChainIndex
 	txns      []types.V2Transaction
 	ephemeral bool // some input was an unconfirmed output
+	// retired: a re-broadcast round removed the set from the store while its
+	// transactions were not in the pool (confirmed, or no longer valid). The
+	// store contract says sets are re-broadcast "until all transactions are gone
+	// from the transaction pool", so this is the documented end of a set's life -
+	// also if a later reorg un-confirms the transaction again.
+	retired bool
+}
+
+// storedIn reports whether some stored set carries the set's last transaction.
+func (b bset) storedIn(sets []wallet.BroadcastedSet) bool {
+	last := b.txns[len(b.txns)-1].ID()
+	for _, set := range sets {
+		for _, t := range set.Transactions {
+			if t.ID() == last {
+				return true
+			}
+		}
+	}
+	return false
 }
 
 func newBset(basis types.ChainIndex, txns []types.V2Transaction) bset {
@@ -313,6 +332,22 @@ type request struct {
 	state    int  // 0 outstanding, 1 released, 2 submitted, 3 dead
 	noSubmit bool // carries fake inputs, can only be released
 	unconf   bool // had an unconfirmed input when it was funded
+	// vals: the value every input had in the wallet's view when it was selected
+	vals map[scID]types.Currency
+}
+
+// noteValues records the values of the given inputs as the view has them.
+func (r *request) noteValues(v view, ids []scID) {
+	if r.vals == nil {
+		r.vals = map[scID]types.Currency{}
+	}
+	for _, id := range ids {
+		if u, ok := v.snap.U[id]; ok {
+			r.vals[id] = u.SiacoinOutput.Value
+		} else if e, ok := v.snap.E[id]; ok {
+			r.vals[id] = e.SiacoinOutput.Value
+		}
+	}
 }
 
 type world struct {
@@ -1631,6 +1666,7 @@ func (wd *world) opFund(op Op, step int) error {
 	}
 	req.ids = ids
 	req.unconf = nUnconf > 0
+	req.noteValues(v, ids)
 	wd.reserve(ids, t0, t1, req.id)
 	wd.reqs = append(wd.reqs, req)
 	return nil
@@ -1833,6 +1869,7 @@ func (wd *world) opTopUp(op Op, step int) error {
 		r.unconf = true
 	}
 	r.ids = append(r.ids, newIDs...)
+	r.noteValues(v, newIDs)
 	wd.reserve(newIDs, t0, t1, r.id)
 	return nil
 }
@@ -1903,6 +1940,12 @@ func (wd *world) opSubmit(op Op, step int) error {
 		} else if u, ok := snap.chainU[id]; ok {
 			if u.MaturityHeight > snap.cmTip.Height {
 				must, why = false, "input-immature-after-reorg"
+			} else if was, ok := r.vals[id]; ok && !was.Equals(u.SiacoinOutput.Value) {
+				// the same output id carries another value on the chain the
+				// manager is on now (a contract payout of another revision, a
+				// siafund claim of another pool size): the wallet funded against a
+				// branch that was reorged out, the transaction cannot balance
+				must, why = false, "input-value-changed-by-reorg"
 			}
 		} else if _, ok := snap.E[id]; ok {
 			if (r.kind == "v1") != (snap.creator[id] == 1) {
@@ -2187,6 +2230,7 @@ func (wd *world) opRedistribute(op Op, step int) error {
 	if len(txns) > 1 {
 		wd.cs.Class("redistribute=multi-txn")
 	}
+	req.noteValues(v, req.ids)
 	wd.reserve(req.ids, t0, t1, req.id)
 	wd.reqs = append(wd.reqs, req)
 	return nil
@@ -2339,7 +2383,7 @@ func (wd *world) opRebroadcast(step int) error {
 	}
 	var live []liveSet
 	for bi, b := range wd.bcast {
-		if bi2, ok := wd.cm.BestIndex(b.basis.Height); !b.ephemeral && b.inPool(wd.cm) && ok && bi2 == b.basis {
+		if bi2, ok := wd.cm.BestIndex(b.basis.Height); !b.retired && b.storedIn(before) && !b.ephemeral && b.inPool(wd.cm) && ok && bi2 == b.basis {
 			live = append(live, liveSet{b, bi})
 		}
 	}
@@ -2370,6 +2414,19 @@ func (wd *world) opRebroadcast(step int) error {
 		return fmt.Errorf("INFRA: reopen wallets: %w", err)
 	}
 	wd.res = map[scID]resv{} // a new wallet object: reservations are gone
+	// sets that are gone now and were not live before have reached the
+	// documented end of their life
+	isLive := map[int]bool{}
+	for _, l := range live {
+		isLive[l.bi] = true
+	}
+	if now, _ := wd.ws.BroadcastedSets(); true {
+		for bi := range wd.bcast {
+			if !wd.bcast[bi].storedIn(now) && (!isLive[bi] || !done) {
+				wd.bcast[bi].retired = true
+			}
+		}
+	}
 	if !done {
 		wd.cs.Inconclusive("rebroadcast-round-not-observed-within-3s")
 		return nil
@@ -2439,6 +2496,8 @@ func (wd *world) opRestart(op Op) error {
 		}
 		for bi, b := range wd.bcast {
 			switch {
+			case b.retired:
+				wd.cs.Class("restart=node:broadcast-set-retired-by-an-earlier-re-broadcast-round")
 			case b.ephemeral:
 				wd.cs.Class("restart=node:broadcast-set-with-unconfirmed-parent (not judged)")
 			case !b.live(snap.chainU):
